@@ -83,6 +83,16 @@ class Script(Behaviour):
                                         b"echo:Unknown command: \"foo\""]))
         if index in self.report_at:
             x = index + 0.25
+            if self.rng.random() < 0.5:
+                # an unsolicited status report with the SAME letters and older values arrives first
+                # (auto-report, busy echo): the reading requested by this statement comes after it
+                stale = 900.0 + index
+                if self.transport == "socket":
+                    out.append(b"<Run|MPos:%.3f,8.000,9.000|FS:100,0>" % stale)
+                else:
+                    out.append(b"X:%.2f Y:8.00 Z:9.00 E:0.00 Count X:1 Y:1 Z:1" % stale)
+                    if self.rng.random() < 0.5:
+                        out.append(b"T:%d.0 /0.0 B:20.0 /0.0 C:%d.0 /0.0" % (900 + index, 900 + index))
             self.reported[index] = x
             if self.transport == "socket":
                 out.append(b"<Idle|MPos:%.3f,2.000,3.000|FS:500,0>" % x)
